@@ -101,6 +101,70 @@ def _cons_on_image(td, c, v, realm, sopts) -> bool:
     return not M.constraint_failures(c, img, kws)
 
 
+def leaf_errors(errs) -> list:
+    """anyOf / oneOf failures are replaced by the errors of the only branch which is not a plain
+    JSON-type mismatch at the same location (e.g. the `null` branch of an Optional), recursively"""
+    out = []
+    for e in errs:
+        if e.validator in ("anyOf", "oneOf") and e.context:
+            branches: Dict[Any, list] = {}
+            for c in e.context:
+                branches.setdefault(c.relative_schema_path[0] if c.relative_schema_path else None, []).append(c)
+            live = [b for b in branches.values() if not any(c.validator == "type" and list(c.absolute_path) == list(e.absolute_path) for c in b)]
+            if len(live) == 1:
+                out += leaf_errors(live[0])
+                continue
+        out.append(e)
+    return out
+
+
+def locate(td, v, path: list, realm, sopts: S.SOpts):
+    """follow an instance path of the serialized data through the description: the innermost
+    described type whose image contains the location, its value, and the rest of the path"""
+    while True:
+        if isinstance(td, M.Ref):
+            td = realm.descs[td.name]
+        elif isinstance(td, S.Spec):
+            td = S.subst(td.obj, td.arg)
+        elif isinstance(td, (M.Ann, M.NewT)):
+            td = td.t
+        elif isinstance(td, M.Opt) and v is not None:
+            td = td.t
+        elif isinstance(td, M.Uni):
+            alt = next((a for a in td.alts if S.conforms(a, v, realm)), None)
+            if alt is None:
+                return td, v, path
+            td = alt
+        elif not path:
+            return td, v, path
+        elif isinstance(td, M.Disc):
+            alt = next((a for a in td.alts if S.conforms(a, v, realm)), None)
+            if alt is None:
+                return td, v, path
+            td = alt
+        elif isinstance(td, M.Coll) and isinstance(v, (list, tuple)) and isinstance(path[0], int) and path[0] < len(v):
+            td, v, path = td.t, v[path[0]], path[1:]
+        elif isinstance(td, M.Tup) and isinstance(path[0], int) and path[0] < len(td.elts):
+            td, v, path = td.elts[path[0]], v[path[0]], path[1:]
+        elif isinstance(td, M.Mapp):
+            ref = S.RefSer(realm, sopts)
+            k = next((k for k in v if S._eq(ref.ser(td.k, k), path[0])), None)
+            if k is None:
+                return td, v, path
+            td, v, path = td.v, v[k], path[1:]
+        elif isinstance(td, M.Obj) and not (isinstance(td, S.SObj) and td.serializer):
+            f = next((f for f in td.fields if not (f.flatten or f.pattern is not None or f.additional) and getattr(f, "conv", None) is None and M.ext_name(td, f, M.Opts(aliaser=sopts.aliaser)) == path[0]), None)
+            if f is None:
+                return td, v, path
+            try:
+                x = v[f.name] if td.kind == "typeddict" else getattr(v, f.name)
+            except Exception:
+                return td, v, path
+            td, v, path = f.t, x, path[1:]
+        else:
+            return td, v, path
+
+
 def declared_properties(schema: dict, root: dict, seen=None) -> set:
     """names under `properties`, through $ref / allOf / anyOf / oneOf"""
     seen = seen if seen is not None else set()
@@ -224,22 +288,25 @@ def run(report, tier: str, seed: int, log_name: str = "serialized_data_validates
                             errs = None
                             msg = f"validation crashed: {type(e).__name__}: {e}"
                         if errs is None:
-                            kinds = {"crash@$": msg}
+                            found = [(tn, d, "crash@$", msg)]
                         else:
-                            # one violation per failing (schema keyword, instance location)
-                            kinds = {}
-                            for e0 in errs:
-                                loc = "/".join(map(str, e0.absolute_path)) or "$"
-                                kinds.setdefault(f"{e0.validator}@{loc}", f"at {loc}: {e0.message[:200]}")
-                        for kind, msg in kinds.items():
+                            # one violation per (class whose schema rejects, its value, schema keyword, location in it)
+                            found = []
+                            for e0 in leaf_errors(errs):
+                                at_td, at_v, rest = locate(td, v, list(e0.absolute_path), realm, sopts)
+                                loc = "/".join(map(str, rest)) or "$"
+                                where = "/".join(map(str, e0.absolute_path)) or "$"
+                                found.append((tname(at_td), SP.describe(at_v), f"{e0.validator}@{loc}", f"at {where}: {e0.message[:200]}"))
+                        for at, at_d, kind, msg in found:
                             log.fail(
-                                f"invalid:{tn}:{sname}:{d}:{kind}",
-                                f"serialize({tn}, {d}, {sname}, {how}) = {data!r} does not validate against serialization_schema: {msg}",
+                                f"invalid:{at}:{sname}:{at_d}:{kind}",
+                                f"serialize({tn}, {d}, {sname}, {how}) = {data!r} does not validate against serialization_schema: {msg}" + (f" (in the {at} part {at_d})" if at != tn else ""),
                                 {"type": tn, "description": repr(td), "settings": sname, "value": d, "data": repr(data), "schema": schema},
                                 observed=msg,
                                 expected="valid",
                                 functions_involved=["SerializationSchemaBuilder", "ObjectField", "ComplexField", "SerializedField"],
                             )
+                        kinds = found
                         if kinds:
                             break
     finally:
